@@ -57,6 +57,18 @@ NM, NS = len(M_FIELDS), len(S_FIELDS)
 
 
 # ---------------------------------------------------------------------------------------------------------
+# what the harness asked for (constructor arguments) — every value range is derived from this, never from the
+# widths of the signals the implementation created: only the netlist may truncate.
+
+class BusSpec:
+    def __init__(self, data_width, adr_width, adr_widths=None, n=1):
+        self.data_width = data_width
+        self.sel_width = data_width // 8
+        self.adr_widths = list(adr_widths) if adr_widths is not None else [adr_width] * n
+        self.adr_width = max([adr_width] + self.adr_widths) if adr_widths is None else max(self.adr_widths)
+
+
+# ---------------------------------------------------------------------------------------------------------
 # address predicates
 
 class DecAll:
@@ -68,7 +80,7 @@ class DecAll:
     def match(self, adr, bus=None):
         return True
     def example(self, rng, bus):
-        return rng.getrandbits(len(bus.adr))
+        return rng.getrandbits(bus.adr_width)
 
 
 class DecHi:
@@ -82,7 +94,7 @@ class DecHi:
     def match(self, adr, bus=None):
         return (adr >> self.shift) == self.val
     def example(self, rng, bus):
-        return ((self.val << self.shift) | rng.getrandbits(self.shift)) & ((1 << len(bus.adr)) - 1)
+        return ((self.val << self.shift) | rng.getrandbits(self.shift)) & ((1 << bus.adr_width) - 1)
 
 
 class DecSet:
@@ -195,15 +207,21 @@ class WbFabric:
     """
 
     def __init__(self, name, kind, module, masters, slaves, decs, lean_open, register=False, timeout=None,
-                 error_sig=None, alphabet=None, env=None, bus=None):
+                 error_sig=None, alphabet=None, env=None, bus=None, spec=None, adr_shifts=None):
         self.name, self.kind, self.module = name, kind, module
         self.masters, self.slaves, self.decs = masters, slaves, decs
         self.n, self.m = len(masters), len(slaves)
         self.register, self.timeout = register, timeout
         self.error_sig = error_sig
         self.lean_open = lean_open
-        self.bus = bus if bus is not None else masters[0]
-        self.data_width = self.bus.data_width
+        assert spec is not None, "WbFabric needs the BusSpec (constructor arguments) of the instance"
+        self.spec = spec
+        self.bus = spec                  # what Dec*.match / Dec*.example see: data_width, adr_width
+        self.data_width = spec.data_width
+        # byte-addressed master ports (SoC glue): master i drives adr << adr_shifts[i] relative to the bus word address
+        self.adr_shifts = list(adr_shifts) if adr_shifts else None
+        if self.adr_shifts and any(self.adr_shifts):
+            self.model_letter = self._word_letter
         self.netlist = LazyNetlist(module)
         self.inputs = None
         self.outputs = None
@@ -237,6 +255,13 @@ class WbFabric:
         self.last = (self._letter, outs)
         return outs
 
+    def _word_letter(self, letter):
+        """The letter as the word-addressed bus sees it (byte-addressed master ports: adr >> shift)."""
+        l = list(letter)
+        for i, sh in enumerate(self.adr_shifts):
+            l[NM * i + 3] >>= sh
+        return tuple(l)
+
     def nontrivial(self, letter, outs):
         to_s, to_m, _ = split_outs(outs, self.n, self.m)
         return any(s[0] and s[1] for s in to_s) or any(x[0] or x[1] for x in to_m)
@@ -262,7 +287,11 @@ class WbFabric:
         return self._env.next_letter(rng, t, self.last)
 
     def monitor(self):
-        return FabricMonitor(self)
+        mon = FabricMonitor(self)
+        if self.adr_shifts and any(self.adr_shifts):
+            inner = mon.observe
+            mon.observe = lambda letter, outs: inner(self._word_letter(letter), outs)
+        return mon
 
 
 def _ifaces(k, data_width, adr_width):
@@ -281,15 +310,28 @@ def _masters(n, data_width, adr_width, adr_widths):
     return [wishbone.Interface(data_width=data_width, adr_width=w) for w in adr_widths], max(adr_widths)
 
 
+DEFAULT_TIMEOUT = 1000000     # documented default `timeout_cycles=1e6` of InterconnectShared (checked against the model)
+
+
+def _err_sig(mod):
+    """`Timeout.error` of a shared interconnect, if the implementation has one (absent -> the output reads 0 and the
+    model comparison reports it; never an exception)."""
+    return getattr(getattr(mod, "timeout", None), "error", None)
+
+
 def make_shared(n, decs, register=False, timeout=None, data_width=8, adr_width=2, adr_widths=None, **kw):
-    """`adr_widths=[w0, …]`: masters of different `adr_width` (slaves and decoders use the widest)."""
+    """`adr_widths=[w0, …]`: masters of different `adr_width` (slaves and decoders use the widest).
+    `timeout="default"`: do not pass `timeout_cycles` (default-argument path, 1e6 cycles)."""
     m = len(decs)
     masters, adr_width = _masters(n, data_width, adr_width, adr_widths)
     slaves = _ifaces(m, data_width, adr_width)
     bus = wishbone.Interface(data_width=data_width, adr_width=adr_width)
-    mod = wishbone.InterconnectShared(masters, [(d.fn(bus), s) for d, s in zip(decs, slaves)], register=register,
-                                      timeout_cycles=timeout)
-    name = "Shared %dx%d%s%s/%db" % (n, m, " reg" if register else "", " to=%s" % timeout if timeout is not None else "",
+    args = {} if timeout == "default" else {"timeout_cycles": timeout}
+    mod = wishbone.InterconnectShared(masters, [(d.fn(bus), s) for d, s in zip(decs, slaves)], register=register, **args)
+    tdesc = timeout
+    if timeout == "default":
+        timeout = DEFAULT_TIMEOUT
+    name = "Shared %dx%d%s%s/%db" % (n, m, " reg" if register else "", " to=%s" % tdesc if tdesc is not None else "",
                                      data_width)
     lean_open = "shared %d %d %d %s %d %d %s" % (n, m, int(register), "none" if timeout is None else int(timeout),
                                                 data_width, _addr_width(data_width, adr_width),
@@ -297,7 +339,8 @@ def make_shared(n, decs, register=False, timeout=None, data_width=8, adr_width=2
     if adr_widths is not None:
         lean_open += " aws:" + ",".join(map(str, adr_widths))
     return WbFabric(kw.pop("name", name), "shared", mod, masters, slaves, decs, lean_open, register=register,
-                    timeout=timeout, error_sig=mod.timeout.error if timeout is not None else None, bus=bus, **kw)
+                    timeout=None if timeout is None else int(timeout), error_sig=_err_sig(mod),
+                    spec=BusSpec(data_width, adr_width, adr_widths, n), **kw)
 
 
 def make_xbar(n, decs, register=False, data_width=8, adr_width=2, timeout_arg=None, adr_widths=None, **kw):
@@ -310,16 +353,18 @@ def make_xbar(n, decs, register=False, data_width=8, adr_width=2, timeout_arg=No
     name = "Crossbar %dx%d%s/%db" % (n, m, " reg" if register else "", data_width)
     lean_open = "xbar %d %d %d %d %d %s" % (n, m, int(register), data_width, _addr_width(data_width, adr_width),
                                            " ".join(d.word() for d in decs))
-    return WbFabric(kw.pop("name", name), "xbar", mod, masters, slaves, decs, lean_open, register=register, bus=bus, **kw)
+    return WbFabric(kw.pop("name", name), "xbar", mod, masters, slaves, decs, lean_open, register=register,
+                    spec=BusSpec(data_width, adr_width, adr_widths, n), **kw)
 
 
-def make_arbiter(n, data_width=8, adr_width=2, **kw):
-    """`wishbone.Arbiter(masters, target)` alone = shared model with one slave that matches every address."""
+def make_arbiter(n, data_width=8, adr_width=2, controllers=False, **kw):
+    """`wishbone.Arbiter(masters, target)` alone = shared model with one slave that matches every address.
+    `controllers=True` uses the alternative keyword (`Arbiter(controllers=…, target=…)`)."""
     masters, slaves = _ifaces(n, data_width, adr_width), _ifaces(1, data_width, adr_width)
-    mod = wishbone.Arbiter(masters, slaves[0])
+    mod = wishbone.Arbiter(controllers=masters, target=slaves[0]) if controllers else wishbone.Arbiter(masters, slaves[0])
     lean_open = "shared %d 1 0 none %d %d all" % (n, data_width, _addr_width(data_width, adr_width))
-    return WbFabric(kw.pop("name", "Arbiter %dx1/%db" % (n, data_width)), "shared", mod, masters, slaves, [DecAll()],
-                    lean_open, **kw)
+    return WbFabric(kw.pop("name", "Arbiter%s %dx1/%db" % ("(controllers=)" if controllers else "", n, data_width)),
+                    "shared", mod, masters, slaves, [DecAll()], lean_open, spec=BusSpec(data_width, adr_width, None, n), **kw)
 
 
 def make_decoder(decs, register=False, data_width=8, adr_width=2, **kw):
@@ -330,50 +375,81 @@ def make_decoder(decs, register=False, data_width=8, adr_width=2, **kw):
     lean_open = "shared 1 %d %d none %d %d %s" % (m, int(register), data_width, _addr_width(data_width, adr_width),
                                                  " ".join(d.word() for d in decs))
     return WbFabric(kw.pop("name", "Decoder 1x%d%s/%db" % (m, " reg" if register else "", data_width)), "shared", mod,
-                    masters, slaves, decs, lean_open, register=register, **kw)
+                    masters, slaves, decs, lean_open, register=register, spec=BusSpec(data_width, adr_width, None, 1), **kw)
+
+
+def expected_topology(n, regions, interconnect):
+    """Specification of the fabric a SoC bus needs: point-to-point only for one master and one slave mapped at 0
+    (what `do_finalize` implements since fix 13ff9a1); none without masters or slaves."""
+    if n == 0 or not regions:
+        return "none"
+    if n == 1 and len(regions) == 1 and regions[0][0] == 0:
+        return "p2p"
+    return interconnect
 
 
 def make_socbus(n, regions, interconnect="shared", register=True, timeout=1e6, data_width=32, address_width=32,
-                extra_first=None, **kw):
+                extra_first=None, slaves_first=False, byte_masters=(), **kw):
     """End-to-end: a REAL `SoCBusHandler` (litex/soc/integration/soc.py) with `n` masters and one slave per
     `(origin, size)` in `regions`, finalized, so that `do_finalize` itself picks InterconnectPointToPoint /
-    InterconnectShared / Crossbar and builds the decoders from the SoCRegions.  `extra_first=(origin, size)`
-    registers a slave-less (linker) region before the slaves (it must not influence the selection).  The Lean side (`open socbus …`) makes the same
-    selection with `busTopology`; the monitor's address map is the specification (inside [origin, origin+size_pow2))."""
+    InterconnectShared / Crossbar and builds the decoders from the SoCRegions.
+    `extra_first=(origin, size)` registers a slave-less (linker) region before the slaves (it must not influence the
+    selection); `slaves_first` calls add_slave before add_master; `byte_masters` lists masters whose port is
+    byte-addressed (`Interface(addressing="byte")`, converted by `add_adapter`): they drive byte addresses, the bus
+    and the model see `adr >> log2(data_width/8)`.
+    The Lean side (`open socbus …`) makes the selection with `busTopology`; the monitor's topology, timeout and
+    address map come from the arguments (specification), not from what the implementation built."""
     from litex.soc.integration import soc as S
     bus = S.SoCBusHandler(standard="wishbone", data_width=data_width, address_width=address_width,
                           timeout=timeout, interconnect=interconnect, interconnect_register=register)
     if extra_first is not None:
         bus.add_region("extra", S.SoCRegion(origin=extra_first[0], size=extra_first[1], linker=True))
-    adr_width = address_width - ((data_width // 8).bit_length() - 1)
-    masters, slaves = _ifaces(n, data_width, adr_width), _ifaces(len(regions), data_width, adr_width)
-    for i, mst in enumerate(masters):
-        bus.add_master("m%d" % i, mst)
-    for j, (slv, (o, sz)) in enumerate(zip(slaves, regions)):
-        bus.add_slave("s%d" % j, slv, S.SoCRegion(origin=o, size=sz))
+    sh = (data_width // 8).bit_length() - 1
+    adr_width = address_width - sh
+    masters = [wishbone.Interface(data_width=data_width, address_width=address_width, addressing="byte")
+               if i in byte_masters else wishbone.Interface(data_width=data_width, adr_width=adr_width) for i in range(n)]
+    slaves = _ifaces(len(regions), data_width, adr_width)
+
+    def add_masters():
+        for i, mst in enumerate(masters):
+            bus.add_master("m%d" % i, mst)
+
+    def add_slaves():
+        for j, (slv, (o, sz)) in enumerate(zip(slaves, regions)):
+            bus.add_slave("s%d" % j, slv, S.SoCRegion(origin=o, size=sz))
+    for f in ((add_slaves, add_masters) if slaves_first else (add_masters, add_slaves)):
+        f()
     bus.finalize()
     ic = bus._interconnect
-    kind = {"InterconnectPointToPoint": "p2p", "InterconnectShared": "shared", "Crossbar": "xbar"}.get(
+    built = {"InterconnectPointToPoint": "p2p", "InterconnectShared": "shared", "Crossbar": "crossbar"}.get(
         type(ic).__name__, "none")
+    topo = expected_topology(n, regions, interconnect)
+    kind = {"crossbar": "xbar", "none": "shared"}.get(topo, topo)
     decs = [DecRegion(o, sz) for (o, sz) in regions]
-    err = ic.timeout.error if (kind == "shared" and hasattr(ic, "timeout")) else None
+    has_to = topo == "shared" and timeout is not None
     lean_open = "socbus %d %s %d %s %d %d %s" % (
         n, interconnect, int(register), "none" if timeout is None else int(timeout), data_width, address_width,
         " ".join("%d:%d" % r for r in regions))
-    name = kw.pop("name", "SoCBusHandler %dx%d %s [%s]%s" % (
-        n, len(regions), interconnect, " ".join("%#x+%#x" % r for r in regions),
-        " extra@%#x" % extra_first[0] if extra_first else ""))
-    inst = WbFabric(name, kind if kind != "none" else "shared", bus, masters, slaves, decs, lean_open,
-                    register=register and kind != "p2p", timeout=(int(timeout) if (err is not None) else None),
-                    error_sig=err, bus=masters[0], **kw)
-    inst.topology = {"xbar": "crossbar"}.get(kind, kind)      # as named by the Lean model
+    name = kw.pop("name", "SoCBusHandler %dx%d %s%s to=%s [%s]%s%s%s" % (
+        n, len(regions), interconnect, " reg" if register else "", "none" if timeout is None else int(timeout),
+        " ".join("%#x+%#x" % r for r in regions),
+        " extra@%#x" % extra_first[0] if extra_first else "", " slaves-first" if slaves_first else "",
+        " byte-masters=%s" % (list(byte_masters),) if byte_masters else ""))
+    adr_widths = [address_width if i in byte_masters else adr_width for i in range(n)]
+    inst = WbFabric(name, kind, bus, masters, slaves, decs, lean_open,
+                    register=register and topo != "p2p", timeout=int(timeout) if has_to else None,
+                    error_sig=_err_sig(ic), spec=BusSpec(data_width, adr_width, adr_widths, n),
+                    adr_shifts=[sh if i in byte_masters else 0 for i in range(n)], **kw)
+    inst.spec.adr_width = adr_width          # the bus / the slaves are word addressed
+    inst.topology = built                    # what the implementation built, as named by the Lean model
     return inst
 
 
 def make_p2p(data_width=8, adr_width=2, **kw):
     masters, slaves = _ifaces(1, data_width, adr_width), _ifaces(1, data_width, adr_width)
     mod = wishbone.InterconnectPointToPoint(masters[0], slaves[0])
-    return WbFabric(kw.pop("name", "PointToPoint/%db" % data_width), "p2p", mod, masters, slaves, [DecAll()], "p2p", **kw)
+    return WbFabric(kw.pop("name", "PointToPoint/%db" % data_width), "p2p", mod, masters, slaves, [DecAll()], "p2p",
+                    spec=BusSpec(data_width, adr_width, None, 1), **kw)
 
 
 # ---------------------------------------------------------------------------------------------------------
@@ -437,13 +513,21 @@ class ProtocolEnv:
         neighbours just outside and a few unmapped ones."""
         inst = self.inst
         if self.adr_pool is None:
-            mask = (1 << len(inst.bus.adr)) - 1
+            mask = (1 << inst.spec.adr_width) - 1
             pool = []
             for j in range(self.m):
                 ex = [inst.decs[j].example(rng, inst.bus) & mask for _ in range(8)]
                 pool += ex + [(min(ex) - 1) & mask, (max(ex) + 1) & mask]
             self.adr_pool = pool or [0]
         return self.adr_pool
+
+    def _madr(self, i, word_adr, rng):
+        """Word address -> what master i drives: limited to the adr_width it was constructed with; byte-addressed
+        master ports drive the byte address (random low bits)."""
+        inst = self.inst
+        sh = (inst.adr_shifts or [0] * self.n)[i]
+        a = (word_adr << sh) | (rng.getrandbits(sh) if sh else 0)
+        return a & ((1 << inst.spec.adr_widths[i]) - 1)
 
     def next_letter(self, rng, t, last):
         inst = self.inst
@@ -452,9 +536,9 @@ class ProtocolEnv:
         p_start = (0.5, 0.95, 0.15, 1.0, 0.6, 0.3)[regime]
         max_lat = (2, 0, 5, 1, 3, 8)[regime]
         p_err = (0.1, 0.0, 0.2, 0.05, 0.5, 0.1)[regime]
-        aw = max(len(mst.adr) for mst in inst.masters)
+        aw = inst.spec.adr_width
         dwm = (1 << inst.data_width) - 1
-        selm = (1 << len(inst.masters[0].sel)) - 1
+        selm = (1 << inst.spec.sel_width) - 1
         if last is not None:
             (pl, po) = last
             to_s, to_m, _ = split_outs(po, n, m)
@@ -469,7 +553,7 @@ class ProtocolEnv:
                 self.req[i] = None
                 self.hold_cyc[i] = False
             if self.req[i] is None and rng.random() < p_start:
-                adr = (rng.choice(pool) if rng.random() < 0.9 else rng.getrandbits(aw)) & ((1 << len(inst.masters[i].adr)) - 1)
+                adr = self._madr(i, rng.choice(pool) if rng.random() < 0.9 else rng.getrandbits(aw), rng)
                 we = rng.getrandbits(1)
                 dat = ((i + 1) << (inst.data_width - 4)) | rng.getrandbits(max(1, inst.data_width - 4)) if inst.data_width >= 8 else rng.getrandbits(inst.data_width)
                 self.req[i] = m_req(adr, we=we, dat_w=dat & dwm, sel=rng.randint(1, selm) if selm > 1 else 1,
@@ -477,10 +561,10 @@ class ProtocolEnv:
             if self.req[i] is not None:
                 parts.append(self.req[i])
             elif self.hold_cyc[i] and rng.random() < 0.7:
-                parts.append(m_req(rng.choice(pool) & ((1 << len(inst.masters[i].adr)) - 1), stb=0, tag=i & 3))
+                parts.append(m_req(self._madr(i, rng.choice(pool), rng), stb=0, tag=i & 3))
             else:
                 self.hold_cyc[i] = False
-                g = rng.getrandbits(len(inst.masters[i].adr)) if self.garbage else 0
+                g = rng.getrandbits(inst.spec.adr_widths[i]) if self.garbage else 0
                 parts.append((0, rng.getrandbits(1) if self.garbage else 0, 0, g, 0, 0, 0, i & 3))
         # slaves: see the strobes of the *current* cycle (peek) and answer after a random latency (0 = same cycle)
         now_s = inst.peek(parts)
@@ -526,6 +610,8 @@ class FabricMonitor:
       R5 (ownership) the owner of a slave/bus changes only when the previous owner does not request it any more.
       R6 (wait)      while a master keeps requesting a slave/bus, ownership changes at most n-1 times before it
                      becomes the owner.
+      R9 (progress)  when the owner has released a slave/bus (does not request it) and another master requests it, the
+                     ownership moves at the next clock edge, and to a requesting master (no starvation by a stuck grant).
       R8 (timeout)   the timeout fires (`error`) only after `timeout` consecutive cycles in which the bus owner
                      drove cyc & stb and saw no ack (never early; the timing itself is C11's property).
       R7 (one term.) in a cycle in which every slave answers only a presented strobe: the number of masters that see
@@ -678,6 +764,14 @@ class FabricMonitor:
             # the owner is identifiable only when exactly one master drives these signals
             cur = cand[0] if len(cand) == 1 else None
             po = self.prev_owner[r]
+            if po is not None and cur is not None and not self.prev_req[r][po] and any(
+                    self.prev_req[r][i] for i in range(n) if i != po):
+                # R9: the owner had released the resource while somebody else requested it
+                if cur == po:
+                    return "R9: resource %d stays with master %d, which had released it, although %r requested it (starvation)" % (
+                        r, po, [i for i in range(n) if self.prev_req[r][i]])
+                if not self.prev_req[r][cur]:
+                    return "R9: resource %d handed to master %d, which did not request it" % (r, cur)
             if po is not None and cur is not None and cur != po:
                 if self.prev_req[r][po]:
                     return "R5: resource %d moved from master %d to master %d although %d still requested it" % (r, po, cur, po)
